@@ -54,3 +54,15 @@ Theorem C19_chain_is_registered_path : forall rules a b st c,
                (same_dim a b = false -> path <> []).
 Proof. exact chain_is_registered_path. Qed.
 Print Assumptions C19_chain_is_registered_path.
+
+(* closed form for chains of ANY length (one rule, two rules, ...): the coefficient is the product / quotient of the
+   rules' numeric coefficients in chain order, the symbolic factors are the rules' symbols in chain order with exponent
+   +1 (q*K) or -1 (q/K), the unit reached is the source unit times a unit that depends on the chain only, and the result
+   is finished by the ordinary conversion from that unit to the target unit *)
+Theorem C19_chain_value : forall rules a b st c,
+  convert_with_rules rules a b = Ok (st, c) ->
+  exists path, shortest (S (length rules)) rules [] a b = Some path /\
+    a_q st = chain_q path /\ a_syms st = chain_syms path /\
+    ueq (a_unit st) (umul a (chain_unit path)) /\ conv (a_unit st) b = Some c.
+Proof. exact chain_value. Qed.
+Print Assumptions C19_chain_value.
